@@ -65,7 +65,7 @@ def run_variant(args):
             return out
         try:
             facts_path, _ = extract.extract(crate_dir=base, tag='selftest%d' % (idx % 8), config='dev',
-                                            out=os.path.join(extract.WORK, 'facts-selftest-%d.json' % idx))
+                                            out=os.path.join(extract.WORK, 'facts-selftest-%d-%d.json' % (os.getppid(), idx)))
         except extract.ExtractError as e:
             out['status'] = 'skipped'
             out['why'] = 'variant does not compile: ' + str(e)[-300:]
@@ -76,7 +76,10 @@ def run_variant(args):
                                stdout=subprocess.PIPE, stderr=subprocess.STDOUT, text=True)
             out['failing_rules_new'] = sorted({l.split('violated:')[1].split()[0] for l in r.stdout.split('\n') if 'violated:' in l})[:6]
             out['status'] = 'fired' if r.returncode == 1 else ('MISSED' if variant['kind'] == 'violating' else 'silent')
-            os.remove(facts_path)
+            try:
+                os.remove(facts_path)
+            except OSError:
+                pass
             return out
         F = Facts(facts_path)
         ctx = Ctx(F)
@@ -100,7 +103,10 @@ def run_variant(args):
             out['status'] = 'fired' if hit else ('fired-other' if newrules or err else 'MISSED')
         else:
             out['status'] = 'silent' if not newrules and not err else 'FALSE-ALARM'
-        os.remove(facts_path)
+        try:
+            os.remove(facts_path)
+        except OSError:
+            pass
     except Exception:
         out['status'] = 'error'
         out['why'] = traceback.format_exc()[-800:]
